@@ -87,7 +87,7 @@ def rpd_exhaustive(wcfg, b12, alphabet, maxlen, minlen=1):
             yield rpd_line(wcfg, b12, 0, ms)
 
 
-REQ_ALPHABET = ["g0", "g1", "g2", "g3", "g43", "e1", "f2", "P44", "F0", "K3"]
+REQ_ALPHABET = ["g0", "g1", "g2", "g3", "g43", "e1", "f2", "P44", "F0", "K3", "2g1"]
 
 
 def rpd_random(r):
@@ -118,16 +118,18 @@ def rpd_random(r):
         elif s >= SEQ_MAX:
             s = SEQ_MAX - 1 - r.randrange(0, 3)      # the highest number a sender can use
         tok = "%s%x" % (kind, s)
+        if kind != "F" and r.random() < 0.15:
+            tok = "2" + tok                      # the other recipient context of the server
         msgs.append(tok)
         if kind in GEN_KINDS:
             sent.append(tok)
-            if s > last:
+            if s > last and tok[0] != "2":
                 last = s
     return rpd_line(wcfg, b12, con, msgs)
 
 
 def parse_rpd(line, out):
-    """-> (wcfg, b12, [(kind, seq, verdict, (last, win, init))]) or None when not comparable"""
+    """-> (wcfg, b12, [(ctx, kind, seq, verdict, (state ctx0, state ctx1))]) or None"""
     t = line.split()
     msgs = t[5:]
     res = out.split()
@@ -135,10 +137,15 @@ def parse_rpd(line, out):
         return None
     steps = []
     for m, o in zip(msgs, res):
-        f = o.split(",")
+        who = 1 if m[0] == "2" else 0
+        mm = m[who:]
+        parts = o.split("/")
+        f = parts[0].split(",")
         if len(f) != 4:
             return None
-        steps.append((m[0], int(m[1:], 16), f[0], (f[1], f[2], f[3])))
+        st0 = tuple(f[1:])
+        st1 = tuple(parts[1].split(",")) if len(parts) > 1 else ("0", "0", "1")
+        steps.append((who, mm[0], int(mm[1:], 16), f[0], (st0, st1)))
     return t[2], int(t[3]), steps
 
 
@@ -149,25 +156,29 @@ def oracle_rpd(line, out):
         return ["unparsable result: %s" % out[:80]]
     wcfg, b12, steps = p
     bad = []
-    accepted = []
-    prev = ("0", "0", "1")
-    for i, (kind, seq, verdict, st) in enumerate(steps):
+    accepted = ([], [])
+    prev = (("0", "0", "1"), ("0", "0", "1"))
+    for i, (who, kind, seq, verdict, st) in enumerate(steps):
+        acc = accepted[who]
+        if st[1 - who] != prev[1 - who]:
+            bad.append("step %d: a message for one recipient context changed the replay state of the other %s -> %s"
+                       % (i, ",".join(prev[1 - who]), ",".join(st[1 - who])))
         if kind in FORGE_KINDS:
             if verdict == "A":
                 bad.append("step %d: message failing authentication (claimed PIV %x) reached the handler" % (i, seq))
-            if st != prev:
+            if st[who] != prev[who]:
                 bad.append("step %d: forged message (claimed PIV %x) changed the replay state %s -> %s"
-                           % (i, seq, ",".join(prev), ",".join(st)))
+                           % (i, seq, ",".join(prev[who]), ",".join(st[who])))
         else:
             if verdict == "A":
-                if seq in accepted:
+                if seq in acc:
                     bad.append("step %d: PIV %x accepted a second time" % (i, seq))
-                accepted.append(seq)
-            elif prev[2] == "0" and seq < SEQ_MAX and accepted and seq > max(accepted):
+                acc.append(seq)
+            elif prev[who][2] == "0" and seq < SEQ_MAX and acc and seq > max(acc):
                 bad.append("step %d: genuine PIV %x newer than everything accepted was rejected (%s)"
                            % (i, seq, verdict))
-            elif (prev[2] == "0" and seq < SEQ_MAX and accepted and seq not in accepted
-                  and max(accepted) - seq < weff(wcfg)):
+            elif (prev[who][2] == "0" and seq < SEQ_MAX and acc and seq not in acc
+                  and max(acc) - seq < weff(wcfg)):
                 bad.append("step %d: genuine PIV %x inside the window and never accepted was rejected (%s)"
                            % (i, seq, verdict))
         prev = st
